@@ -162,6 +162,20 @@ CHECKS["C13"] = ("model_checking",
     "Trusted: TLC; bounded liveness observed as a 5 s deadline (typical latency is below 1 ms); RevokeBegin/RevokeDone "
     "stamps bracket the permit drop so requests read during the drop are not miscounted.", "4 C13")
 
+CHECKS["C11"] = ("model_checking",
+    "TLA+ Sse.tla (bounded queue, sender handles, writer polls) model-checked by TLC; every edge of its state graph "
+    "replayed on the real event stream (spec -> impl); WHATWG event-stream parser in TLA+ reads back generated events; "
+    "multi-threaded runs validated per sender thread",
+    "TLC checks ExactlyOnceInOrder, TerminatorOnlyWhenAllGone, DeliveredBeforeTerminator on all interleavings of up to "
+    "8 sender steps and writer polls (181k states) and shows the pre-repair encoding (empty event = zero bytes) violates "
+    "them. GEN prints one behaviour per edge of the graph (22.8k at 5 steps, 91k at 6) and the harness replays each on "
+    "Response::event_stream() with the serialiser future polled by hand, comparing handle states, delivered events and "
+    "terminator with what TLC computed. 3k/40k event contents are encoded by the real code and read back by "
+    "SseParse!Parse; 1..4 sender threads run through a real server.",
+    "Trusted: TLC; the hand-polled future is deterministic (measured). Known finding D7c (no blank line after a block) "
+    "is listed in known_findings.json and reported as KNOWN-FINDING; any other content failure is a VIOLATION. Events "
+    "whose encoding exceeds 65528 bytes are a documented limit (not delivered).", "4 C11")
+
 NOT_APPLICABLE = {}
 
 
